@@ -1205,7 +1205,18 @@ def rule_ctor_args_in_order_(ctx: Ctx, rep: Report) -> None:
     sigcommon.rule_ctor_args_in_order(ctx, rep, "C05.ctor_args_in_order", ("btclib.",), 40)
 
 
+def rule_stream_param_untouched_(ctx: Ctx, rep: Report) -> None:
+    """C05.stream_param_untouched: every parser of the package sees its BinaryData
+    argument as the caller gave it, in both helpers that dispatch on its type
+    (sigcommon.stream_param_untouched): trailing octets are refused for every
+    spelling of octets."""
+    from rules import sigcommon
+    sigcommon.rule_stream_param_untouched(ctx, rep, "C05.stream_param_untouched", ("btclib.",), 30)
+
+
 RULES = [
+    ("C05.stream_param_untouched", rule_stream_param_untouched_),
+
     ("C05.ctor_args_in_order", rule_ctor_args_in_order_),
 
     ("C05.map_lengths_are_compact_sizes", rule_map_lengths_are_compact_sizes),
